@@ -40,6 +40,40 @@ def exists_call_with(ctx, fd, o, callee, argi, need, targ=None, need_targ=None, 
                       ", ".join(i.line() for i in sites)), loc=sites[0].line())
 
 
+def violation_of_argument(ctx, rid):
+    """set_next_day_transitions: cached violation = sum of Transition::maintenance_violation over the transitions handed in"""
+    from .. import shape as _sh
+    o, fd = ctx.require_fn("%s.set-transitions.violation-of-the-argument" % rid, "T12", SETT,
+                           "the maintenance violation cached by set_next_day_transitions is the sum of maintenance_violation() over its argument")
+    if fd is None:
+        return
+    stores = [d for d in fd.ret_slice()["defs"] if d.kind == "assign" and d.info.get("wfield") == ("maintenance_violation",) and d.instr is not None
+              and d.instr.ops]
+    if len(stores) != 1:
+        ctx.undecided(o, "%d stores of maintenance_violation" % len(stores))
+        return
+    ins = stores[0].instr
+    e = _sh.normalise(_sh.expr(fd, ins.ops[0]))
+    calls, fields, params = _sh.calls_of(e), _sh.fields_of(e), _sh.params_of(e)
+    inner = set()
+    for c in calls:
+        if c.startswith("agg:closure"):
+            continue
+    for k in ctx.prog.family(SETT):
+        if k != SETT:
+            inner |= {(c.callee or "").split("::")[-1] for c in ctx.prog.bodies[k].calls() if (c.callee or "").startswith(TRANSITION + "::")}
+    if "maintenance_counter" in inner and "maintenance_violation" not in inner:
+        ctx.bad(o, "the cached violation adds up maintenance_counter(): cycles with a negative counter (maintained in time) are counted as "
+                "negative violation and hide the violation of the others", loc=ins.line())
+    elif "next_period_transitions" in fields and 2 not in params:
+        ctx.bad(o, "the cached violation is summed over the transitions the schedule had before (self.next_period_transitions), not over the "
+                "argument that is stored", loc=ins.line())
+    elif 2 in params and "maintenance_violation" in inner:
+        ctx.ok(o, _sh.show(e)[:120])
+    else:
+        ctx.undecided(o, "form not recognised: %s" % _sh.show(e)[:120])
+
+
 def every_vehicle_type(ctx, key, tag, fd=None):
     if fd is None:
         fd = ctx.fd(key)
@@ -204,6 +238,7 @@ def rules(ctx):
                     e = _sh.expr(fd, d.instr.ops[0])
                     if e[0] == "call" and "next_period_transitions" in _sh.fields_of(e):
                         merged = (d.instr, _sh.show(e)[:100])
+        violation_of_argument(ctx, "R3")
         if merged:
             ctx.bad(o, "what is stored is %s: the argument is merged with the schedule's old transitions (im's union keeps the entries of the "
                     "receiver), so the optimised cycles are dropped" % merged[1], loc=merged[0].line())
